@@ -43,6 +43,9 @@ type Family struct {
 	New func() interface{}
 	// Run executes the scenario as the root goroutine of a simulation.
 	Run func(sc interface{})
+	// Post (optional) runs after the simulation, outside the simulator, and may
+	// report a violation found in what the run recorded.
+	Post func(sc interface{}) (class, detail string)
 	// Sim extracts the simulator configuration.
 	Sim func(sc interface{}) SimCfg
 	// Describe gives a one-line summary for evidence samples.
@@ -180,6 +183,13 @@ func dumpLive() string {
 	}
 	return out
 }
+
+func jsonMarshal(v interface{}) string {
+	b, _ := json.Marshal(v)
+	return string(b)
+}
+
+func jsonUnmarshal(s string, v interface{}) { json.Unmarshal([]byte(s), v) }
 
 func itoa(i int) string {
 	b, _ := json.Marshal(i)
